@@ -9,6 +9,32 @@ COMMON_NOTE = ("Trusted: Coq 8.16.1 kernel; extraction with ExtrOcamlBasic only 
                "the radix-tree library, flock(2), goroutine scheduling. See DESIGN.md section 5.")
 
 CHECKS = {
+ 'C15': dict(text="Proof (Coq): a Hoare rule for the helpers' loop `for offset := OffsetOldest; offset < max && cond; Consume(offset, 32)` "
+                  "that holds for every way Consume cuts the log into batches (built on: Consume returns no message only when nothing is "
+                  "left); with it, on every state satisfying Inv: FindByOffset selects exactly the live offsets below the bound; FindByCount "
+                  "exactly the first count-max offsets (Stat is proved to count exactly the live messages); FindBySize the shortest prefix "
+                  "whose removal brings the Stat size minus Size(m) of the selected messages below the target - no more than the estimate "
+                  "requires; FindByAge a prefix containing no message newer than the given time, ending at the first newer message, the "
+                  "end of the log or a batch boundary at/after the message GetByTime reports; Trim...Multi = find then DeleteMulti removes "
+                  "exactly the selection and touches no other message (DeleteMulti over live offsets is proved to remove all of them "
+                  "across any number of segments). That the Stat size is below the target after TrimBySize depends on the size estimate "
+                  "(Size(m) vs bytes really freed, file headers) and is decided by the run-time check only. Tied to /repo by seeded "
+                  "histories calling the four Find functions and Trim...Multi with bounds drawn around the live range/count/size/times "
+                  "(incl. OffsetOldest/Newest, 0, beyond, empty log, non-monotone times): selections and deleted sets compared with the "
+                  "extracted model, and judged by prefix/bound checkers (check_find_*, check_trim) on the implementation output.",
+             ref='6/C15', technique='Coq proof (loop rule over arbitrary batching; exact selections; find+DeleteMulti composition) + differential correspondence'),
+ 'C16': dict(text="Proof (Coq): FindUpdates / FindDeletes on every state satisfying Inv are pure folds over the live messages not newer than "
+                  "the cut-off (one forward pass tracking the last offset per key / first-seen value-less messages), for any batching of "
+                  "Consume; what they select: only messages followed by a later examined message with byte-equal key (resp. only value-less "
+                  "messages that are the first message of their key); CompactUpdates (find then DeleteMulti) leaves the last live message of "
+                  "every key unchanged, removes only such messages not newer than the cut-off, keeps every other message and NextOffset; "
+                  "CompactDeletes leaves the latest VALUE of every key unchanged (a key whose only message is value-less is absent before "
+                  "and after); hence so does Compact, their composition. 'At most one message per key left' for monotone times is decided "
+                  "by the run-time check only. Tied to /repo by seeded histories over a small key alphabet with value-less messages and "
+                  "cut-offs around the time range: the key -> latest value map from a full scan before/after every Compact* call, the set "
+                  "of removed offsets, compared with the extracted model and judged by check_latest_preserved / check_updates / "
+                  "check_deletes on the implementation output.",
+             ref='6/C16', technique='Coq proof (folds, soundness of the selection, latest-value preservation, DeleteMulti composition) + differential correspondence'),
  'C10': dict(text="Partial. Proved (Coq), for every hash function: on every state satisfying KInv (exact derived index files; proved for "
                   "every reachable state of a session that keeps its options) whose index timestamps equal the message times (TS) and "
                   "whose live message times never decrease with offset and are not negative, GetByTime returns the live message with the "
@@ -121,8 +147,10 @@ CHECKS = {
                   "log afterwards is the old one minus exactly those messages, NextOffset and the invariant are preserved and the size is the "
                   "sum of record + index-item sizes in the source format - in all structural outcomes (reader / writing segment; same base, "
                   "rebased, emptied, newest message removed with a fresh empty head); the result is accepted by check_delete; relative offsets "
-                  "give ErrInvalidOffset, the empty set is a no-op. DeleteMulti and idempotence are covered by the correspondence and the "
-                  "checkers (their Coq proofs are future work, stated in DESIGN.md). Tied to /repo by seeded histories with offset sets "
+                  "give ErrInvalidOffset, the empty set is a no-op; deleting offsets none of which is live (in particular deleting again) "
+                  "deletes nothing and leaves the state as it is; DeleteMulti over any set of live offsets, spread over any number of "
+                  "segments, removes all of them and nothing else, reports exactly them and no error (each pass makes progress on the "
+                  "lowest live offset). Tied to /repo by seeded histories with offset sets "
                   "drawn by class (first/last/single/subset/range/all/tail/head/dead/unassigned/mixed), Delete and DeleteMulti results "
                   "compared with the extracted model and evaluated by check_delete/check_delete_multi with the exact per-message source "
                   "format read from the file headers.",
